@@ -59,6 +59,10 @@ class Emitter:
             return i if im == 1 else "(%s * %s)" % (self.lit(float(im)), i)
         else:
             raise TranslateError("literal %r" % (v,))
+        if self.backend == "Z":
+            if fr.denominator != 1:
+                raise TranslateError("non-integer literal in integer arithmetic")
+            return "(%d)" % fr.numerator
         if self.backend == "ops":
             if fr.denominator == 1:
                 return "(cofZ O (%d)%%Z)" % fr.numerator
@@ -128,6 +132,28 @@ class Emitter:
                 return "(Rle_dec %s %s)" % (l, r)
         raise TranslateError("condition %s" % ast.unparse(node))
 
+    def boolexpr(self, node):
+        """conditions of if-statements as Coq booleans (backends Z and ops)"""
+        if isinstance(node, ast.BoolOp):
+            op = "||" if isinstance(node.op, ast.Or) else "&&"
+            return "(" + (" %s " % op).join(self.boolexpr(v) for v in node.values) + ")%bool"
+        if isinstance(node, ast.UnaryOp) and isinstance(node.op, ast.Not):
+            return "(negb %s)" % self.boolexpr(node.operand)
+        if isinstance(node, ast.Compare) and len(node.ops) == 1:
+            l, r = self.expr(node.left), self.expr(node.comparators[0])
+            op = node.ops[0]
+            if self.backend == "Z":
+                tab = {ast.Gt: "(%s <? %s)" % (r, l), ast.Lt: "(%s <? %s)" % (l, r), ast.GtE: "(%s <=? %s)" % (r, l),
+                       ast.LtE: "(%s <=? %s)" % (l, r), ast.Eq: "(%s =? %s)" % (l, r), ast.NotEq: "(negb (%s =? %s))" % (l, r)}
+            elif self.backend == "ops":
+                tab = {ast.Gt: "(cltb O %s %s)" % (r, l), ast.Lt: "(cltb O %s %s)" % (l, r)}
+            else:
+                tab = {}
+            for k, v in tab.items():
+                if isinstance(op, k):
+                    return v
+        raise TranslateError("condition %s not in the accepted syntax" % ast.unparse(node))
+
     def expr(self, node):
         if isinstance(node, ast.Constant):
             text = None
@@ -175,6 +201,12 @@ class Emitter:
                 if self.backend == "R":
                     return "(Rpower %s %s)" % (base, self.expr(e))
                 raise TranslateError("power with non-integer exponent in ops backend")
+            if self.backend == "Z":
+                zops = {ast.Add: "+", ast.Sub: "-", ast.Mult: "*", ast.FloorDiv: "/", ast.Mod: "mod"}
+                for k, sym in zops.items():
+                    if isinstance(node.op, k):
+                        return "(%s %s %s)" % (self.expr(node.left), sym, self.expr(node.right))
+                raise TranslateError("operator %s in integer arithmetic" % type(node.op).__name__)
             ops = {ast.Add: "+", ast.Sub: "-", ast.Mult: "*", ast.Div: "/"}
             for k, s in ops.items():
                 if isinstance(node.op, k):
@@ -228,6 +260,52 @@ def _annotate_float_text(tree, src):
                     node._src = None
 
 
+def follow_path(node, path):
+    """descend into the right-hand side: steps ("slice", k, "lower"|"upper"), ("arg", i), ("elt", i), ("kw", name)"""
+    for step in path:
+        kind = step[0]
+        if kind == "slice":
+            if not isinstance(node, ast.Subscript):
+                raise TranslateError("path: expected a subscript, got %s" % type(node).__name__)
+            sl = node.slice
+            dims = list(sl.elts) if isinstance(sl, ast.Tuple) else [sl]
+            if step[1] >= len(dims) or not isinstance(dims[step[1]], ast.Slice):
+                raise TranslateError("path: dimension %d is not a slice in %s" % (step[1], ast.unparse(node)))
+            node = getattr(dims[step[1]], step[2])
+            if node is None:
+                raise TranslateError("path: slice bound %s missing" % step[2])
+        elif kind == "arg":
+            if not isinstance(node, ast.Call) or step[1] >= len(node.args):
+                raise TranslateError("path: no positional argument %d" % step[1])
+            node = node.args[step[1]]
+        elif kind == "kw":
+            if not isinstance(node, ast.Call):
+                raise TranslateError("path: expected a call")
+            kws = {k.arg: k.value for k in node.keywords}
+            if step[1] not in kws:
+                raise TranslateError("path: no keyword %s" % step[1])
+            node = kws[step[1]]
+        elif kind == "elt":
+            if not isinstance(node, (ast.Tuple, ast.List)) or step[1] >= len(node.elts):
+                raise TranslateError("path: no element %d in %s" % (step[1], ast.unparse(node)))
+            node = node.elts[step[1]]
+        elif kind == "base":
+            if not isinstance(node, ast.Subscript):
+                raise TranslateError("path: expected a subscript")
+            node = node.value
+        else:
+            raise TranslateError("path step %r" % (step,))
+    return node
+
+
+def if_tests(fn):
+    out = []
+    for node in ast.walk(fn):
+        if isinstance(node, ast.If):
+            out.append(node.test)
+    return out
+
+
 def find_function(tree, qual):
     parts = qual.split(".")
     body = tree.body
@@ -253,6 +331,20 @@ def translate(path, slices, backend, consts=None):
     defs = []
     for sl in slices:
         fn = find_function(tree, sl["func"])
+        if sl.get("iftest"):
+            # the condition of the unique if/elif whose source matches the given pattern
+            pat = re.compile(sl["iftest"])
+            cands = [t for t in if_tests(fn) if pat.search(ast.unparse(t))]
+            if len(cands) != 1:
+                raise TranslateError("slice %s: %d if-conditions match %r" % (sl["name"], len(cands), sl["iftest"]))
+            em = Emitter(backend, {}, [], consts=dict(consts or {}, **sl.get("consts", {})))
+            body = em.boolexpr(cands[0])
+            if sorted(em.free) != sorted(sl["params"]):
+                raise TranslateError("slice %s: free names %r differ from the declared parameters %r" % (sl["name"], sorted(em.free), sorted(sl["params"])))
+            ty = "C O" if backend == "ops" else ("Z" if backend == "Z" else "R")
+            ps = " ".join(sl["params"])
+            defs.append("Definition gen_%s %s: bool :=\n  %s." % (sl["name"], ("(%s : %s) " % (ps, ty)) if ps else "", body))
+            continue
         env = {}
         occ = sl.get("occ", 0)
         seen = -1
@@ -267,10 +359,12 @@ def translate(path, slices, backend, consts=None):
         if found is None:
             raise TranslateError("slice %s: assignment #%d to %s not found in %s" % (sl["name"], occ, sl["target"], sl["func"]))
         em = Emitter(backend, env, sl.get("inline", []), consts=dict(consts or {}, **sl.get("consts", {})))
+        if sl.get("path"):
+            found = follow_path(found, sl["path"])
         body = em.expr(found)
         if sorted(em.free) != sorted(sl["params"]):
             raise TranslateError("slice %s: free names %r differ from the declared parameters %r" % (sl["name"], sorted(em.free), sorted(sl["params"])))
-        ty = "C O" if backend == "ops" else "R"
+        ty = "C O" if backend == "ops" else ("Z" if backend == "Z" else "R")
         ps = " ".join(sl["params"])
         defs.append("Definition gen_%s %s: %s :=\n  %s." % (sl["name"], ("(%s : %s) " % (ps, ty)) if ps else "", ty, body))
     if backend == "ops":
@@ -279,6 +373,9 @@ def translate(path, slices, backend, consts=None):
                 'Infix "-" := (csub O) : ops_scope. Infix "/" := (cdiv O) : ops_scope.\n'
                 'Notation "- x" := (copp O x) : ops_scope.\nLocal Open Scope ops_scope.\n')
         tail = "\nEnd Gen.\n"
+    elif backend == "Z":
+        head = "From Coq Require Import ZArith.\nOpen Scope Z_scope.\n"
+        tail = "\n"
     else:
         head = "From Coq Require Import Reals.\nOpen Scope R_scope.\n"
         tail = "\n"
